@@ -44,6 +44,7 @@ type offender struct {
 	isList    bool // declared type at the position is a list
 	composite bool // declared type at the position is a composite type
 	isItem    bool // the position is a list item
+	inAbsSelf bool // the position itself is declared with an abstract type
 }
 
 func (o offender) String() string {
@@ -173,6 +174,7 @@ func (m *model) offenders(t *gast.Type, sets []gast.SelectionSet, v *jv, c wctx,
 		}
 		if t.Elem == nil {
 			o.composite = m.s.Types[t.NamedType].IsCompositeType()
+			o.inAbsSelf = m.s.Types[t.NamedType].IsAbstractType()
 		}
 		*out = append(*out, o)
 	}
